@@ -34,7 +34,9 @@ def acc(name, kind, k, what, solver, mutants, tier="quick"):
         "cbmc": solver, "object_bits": 8, "timeout": 300, "assumes": [TRIV], "mutants": mutants})
 
 
-NOPRE = []          # default back end (minisat with preprocessor); with object_bits 8 every job takes 1-2 s
+NOPRE = ["--sat-solver", "cadical"]   # minisat (with or without its preprocessor) is erratic on these instances (some radices 1 s, others
+#                                        time out - probed); cadical needs 3 s for every radix with object_bits 8
+MS_SOLVER = []
 CADICAL = ["--sat-solver", "cadical"]
 acc("dec", 0, 10, "no radix prefix (decimal)", CADICAL, [dict(M_GUARD, expect="overflow")])
 acc("hex", 1, 16, "prefix 0x", NOPRE, [dict(M_NOGUARD, expect="overflow")])
@@ -153,6 +155,6 @@ if __name__ == "__main__":
             "clause": "%s never reads outside the text it is given (buffer = heap object of exactly len bytes) and writes only its out parameters" % fn[0],
             "src": ["strtod.c"], "harness": ["num_scan_value.c"], "entry": entry, "mode": "plain",
             "defines": ["-DNUM_KIND=9", "-DNUM_NOVALUE", "-DNUM_MAXLEN=24"], "functions": fn, "unwind": 25,
-            "checks": ["bounds-check", "pointer-check"], "cbmc": NOPRE, "timeout": 300, "mutants": MS_MUT})
+            "checks": ["bounds-check", "pointer-check"], "cbmc": MS_SOLVER, "timeout": 300, "mutants": MS_MUT})
     json.dump({"units": units}, open(os.path.join(V, "units", "C13.json"), "w"), indent=1)
     print("%d units" % len(units))
